@@ -1,5 +1,7 @@
 """C01 - GLR accepts exactly the language; every obtainable tree is a derivation."""
 
+import time
+
 from pgverif import cfg, findings, glrobs, pgx
 from pgverif.mon.gss import GssMonitor
 from pgverif.props import glrwork
@@ -37,6 +39,7 @@ def required(tier):
         "grammar.cyclic": 3,
         "trees_checked": 1000,
         "grammar.lex_corpus": 4,
+        "long_inputs.ge12": 100,
     }
 
 
@@ -105,11 +108,27 @@ def one_grammar(ctx, mon, name, g, alphabet, maxlen):
         for w in glrwork.inputs_for(g, alphabet, maxlen, ctx.rng, extra_long=2):
             inp = glrwork.relayout(w, ctx.rng, density=0.35 if glrwork.has_overlap(g) else 1.0) if ctx.rng.random() < 0.5 else w
             check_input(ctx, mon, g, pg, parser, pkeys, dict(case0, input=inp), inp)
+        # long inputs (several frontiers with two-digit ordinals); the logical budget is
+        # raised for them and growth stops once one parse needed many reductions
+        mon.reduce_budget = 3000000
+        try:
+            for w in glrwork.long_inputs(g, alphabet, ctx.rng):
+                inp = glrwork.relayout(w, ctx.rng) if ctx.rng.random() < 0.3 else w
+                ctx.count("long_inputs")
+                if len(w) >= 12:
+                    ctx.count("long_inputs.ge12")
+                t0 = time.time()
+                check_input(ctx, mon, g, pg, parser, pkeys, dict(case0, input=inp), inp, long=True)
+                if mon.c["reduce"] > 60000 or time.time() - t0 > 3 or not ctx.more():
+                    ctx.count("long_inputs.growth_stopped")
+                    break
+        finally:
+            mon.reduce_budget = 400000
         if not ctx.more():
             break
 
 
-def check_input(ctx, mon, g, pg, parser, pkeys, case, inp):
+def check_input(ctx, mon, g, pg, parser, pkeys, case, inp, long=False):
     chart = cfg.Chart(g, inp)
     sentence = chart.is_sentence()
     key = (case["grammar"], case["tables"], inp)
@@ -122,6 +141,10 @@ def check_input(ctx, mon, g, pg, parser, pkeys, case, inp):
         return
     except pgx.BudgetExceeded as e:
         ctx.case(key, True)
+        if long:
+            # polynomial but large: not a divergence verdict for inputs of this length
+            ctx.count("long_inputs.budget_not_judged")
+            return
         ctx.violation("glr-diverges", case, "GLR parse exceeded the logical reduce budget: %s" % e)
         return
     ctx.case(key, sentence or len(inp.strip()) >= 2, sample={"grammar": case["grammar"], "tables": case["tables"], "input": inp, "sentence": sentence, "outcome": o.kind})
@@ -157,7 +180,7 @@ def check_input(ctx, mon, g, pg, parser, pkeys, case, inp):
         return
     ctx.count("accept.sentence")
     f = o.forest
-    errs = glrobs.sppf_validate(f, pg, pkeys, g.start, len(inp))
+    errs = glrobs.sppf_validate(f, pg, pkeys, g.start, len(inp), inp=inp)
     if errs:
         ctx.violation("invalid-packed-alternative", case, "SPPF invalid: %s" % (errs[:3],))
         return
@@ -170,15 +193,31 @@ def check_input(ctx, mon, g, pg, parser, pkeys, case, inp):
         return
     # explicit trees
     n = o.len
-    limit = 60
+    limit = 4 if long else 60
     idxs = list(range(min(n, limit)))
     if n > limit:
-        idxs += [ctx.rng.randrange(n) for _ in range(5)]
+        idxs += [ctx.rng.randrange(n) for _ in range(2 if long else 5)]
+    t_trees = time.time()
     ref_forms = None
     refcount = chart.count()
     if refcount != cfg.INF and refcount <= 400:
         ref_forms = set(pgx.ref_tree_form(t, g) for t in chart.trees())
+    if long:
+        try:
+            with pgx.watchdog(6):
+                check_trees(ctx, g, pg, pkeys, case, inp, f, idxs, ref_forms, long, t_trees)
+        except pgx.CaseTimeout:
+            ctx.count("long_inputs.tree_checks_cut_short")
+    else:
+        check_trees(ctx, g, pg, pkeys, case, inp, f, idxs, ref_forms, long, t_trees)
+
+
+def check_trees(ctx, g, pg, pkeys, case, inp, f, idxs, ref_forms, long, t_trees):
     for i in idxs:
+        if long and time.time() - t_trees > 4:
+            # lazy trees of very large forests are slow to unfold; the packed validation above stands
+            ctx.count("long_inputs.tree_checks_cut_short")
+            break
         t = f[i]
         ctx.count("trees_checked")
         perrs = pgx.check_derivation_tree(t, pg, pkeys, g.start)
@@ -223,6 +262,9 @@ def replay(case, ctx):
     try:
         pg = pgx.grammar(case["grammar"])
         parser = pgx.glr(pg, tables=pgx.LALR if case["tables"] == "LALR" else pgx.SLR)
-        check_input(ctx, mon, g, pg, parser, pgx.prod_keys(pg), case, case["input"])
+        long = len(case["input"]) >= 8
+        if long:
+            mon.reduce_budget = 3000000
+        check_input(ctx, mon, g, pg, parser, pgx.prod_keys(pg), case, case["input"], long=long)
     finally:
         mon.uninstall()
